@@ -11,7 +11,7 @@ from trace import parse_cfg, _kv
 # ------------------------------------------------------------------ state projections
 def _fields(names):
     def proj(state):
-        if state.startswith("dropped"):
+        if state.startswith("dropped") or "map=" not in state:
             return state
         d = _kv(state)
         return " ".join(f"{n}={d.get(n, '?')}" for n in names)
@@ -20,8 +20,8 @@ def _fields(names):
 
 def proj_cells(state):
     """value + timestamps of every cell (+ valid_after), nothing about policy."""
-    if state.startswith("dropped"):
-        return ""
+    if state.startswith("dropped") or "map=" not in state:
+        return state
     d = _kv(state)
     if "va" in d:    # sync
         cells = [":".join(e.split(":")[i] for i in (0, 1, 3, 4)) for e in d["map"][1:-1].split(",") if e]
@@ -105,6 +105,8 @@ def gen_cases(pid, rng, tier, kinds):
                 if pid == "C13":
                     case = with_estimates(case)
             cases.append(case)
+        if pid in ("C08", "C10", "C11", "C03", "C09"):
+            cases += [gen.gen_skip_case(rng, kind, 8000 + i) for i in range(60 if tier == "quick" else 600)]
         extra = 4 if tier == "quick" else 30
         if pid in ("C03", "C05", "C06", "C08", "C10", "C11", "C01", "C16"):
             nme = extra // 2 if pid not in ("C05", "C06") else extra * 2
@@ -113,6 +115,8 @@ def gen_cases(pid, rng, tier, kinds):
             cases += [gen.gen_bigsketch(rng, kind, 9500 + i) for i in range(extra // 2)]
         if pid in ("C08", "C09", "C10") and kind == "sync":
             cases += [gen.gen_burst(rng, 9700 + i) for i in range(extra)]
+    if pid == "C08":
+        cases += [gen.gen_deque_case(rng, 7000 + i) for i in range(150 if tier == "quick" else 2000)]
     if pid == "C03" and "sync" in kinds:
         cases += [refill_probe(rng, 9800 + i) for i in range(60 if tier == "quick" else 600)]
     return cases
@@ -173,7 +177,7 @@ def run(pid, tier, seed, model_ok, replay):
             cases += C.load_corpus(d)
         cases += gen_cases(pid, rng, tier, kinds)
     res = run_cases(pid, spec["oracle"], PROJ[spec["proj"]], cases, model_ok)
-    if not replay and pid in ("C03", "C04", "C08", "C10", "C11"):
+    if not replay and pid in ("C03", "C04", "C07", "C08", "C10", "C11"):
         # "for the concurrent cache also at the end of every explored schedule after quiescence"
         import p_conc
         cres = p_conc.run(pid, tier, seed, False, None, nprog=20 if tier == "quick" else 300)
